@@ -22,6 +22,8 @@ func init() {
 			g20AliasInjective(c)
 			g14ReservedBeforeNaming(c)
 			g25FieldRendering(c.Repo, c.Rep)
+			g27ProgressMeasure(c.Repo, c.Rep)
+			g30GeneratorStateless(c.Repo, c.Rep)
 			// which operator or helper is emitted for a component is decided by these predicates: accepting a type Go cannot
 			// compare or copy gives text that does not type-check
 			runG9(c, "equal.canEqual", "deepcopy.canCopy", "contains.canEqual", "derive.IsComparable")
@@ -100,13 +102,19 @@ func init() {
 		technique:   "abstract interpretation into residual programs + channel/WaitGroup typestate and pairing rules on go/cfg graphs (dominance, post-dominance, reachability) of the residual closures",
 	}
 	checks["C20"] = &checkDef{
-		run:         runR_C20,
+		run: func(c *Ctx) {
+			g30GeneratorStateless(c.Repo, c.Rep)
+			runR_C20(c)
+		},
 		explanation: "Engine R on do for n = 2, 3 (thorough: up to 4): every argument function is called exactly once and only inside its own goroutine (never on the caller's goroutine); all go statements dominate the first completion receive and none is reachable after it (start-all-before-wait); each goroutine stores its result before its single completion send, which is on every path and carries its own function's error; the caller receives exactly n completions, n = number of goroutines = number of functions; result slots are written by exactly one goroutine and read only after the receive loop; the returned error is assigned only from a received non-nil value and only while it is still nil; no variable written in a goroutine is used by another goroutine (T8). Not decided: scheduler fairness, panicking functions.",
 		assumptions: append([]string{"Go memory model: a send happens before the corresponding receive completes"}, commonAssumptions...),
 		technique:   "abstract interpretation into residual programs + goroutine typestate/pairing rules on go/cfg graphs of the residual closures",
 	}
 	checks["C06"] = &checkDef{
-		run:         runR_C06,
+		run: func(c *Ctx) {
+			g28BypassQualifier(c.Repo, c.Rep)
+			runR_C06(c)
+		},
 		explanation: "Engine R on gostring — second-stage well-formedness: for every residual the fmt.Fprintf statements are walked along every structured path (each if both ways, each loop 0/1 times; thorough 0/1/2), their format strings concatenated with verbs replaced by placeholders (%#v a value, %d the iteration number, %s a nested derived GoString call); on every path the printed text must parse as an immediately invoked `func() T { … }()`, use only identifiers it declared before, and end in a return; type names in printed text come from the package-qualifying (bypass) printer while the function's own signature uses the ordinary one; a type printed under a pointer constructor (*T, new(T), &T{}) is the component's declared type, never its Underlying(); %s operands are nested gostring calls and values use %#v; a nil pointer/slice/map is printed as `return nil`; every field of an inlined struct is printed (R19). Not decided: %#v's escaping (stdlib), value round-trip, unexported fields. Added: %#v on a composite only when every component was established basic (also on duplicate-text runs).",
 		assumptions: commonAssumptions,
 		technique:   "abstract interpretation into residual programs + path-wise assembly and go/parser analysis of the text the residual prints (two-stage well-formedness)",
@@ -116,7 +124,10 @@ func init() {
 			runG4(c.Repo, c.Rep)
 			runG10(c.Repo, c.Rep)
 			g10DeleteRemoves(c.Repo, c.Rep)
+			g4PrintWrites(c.Repo, c.Rep)
+			g23BreakOnlyWithoutProgress(c.Repo, c.Rep)
 			g26DirectoryKnown(c.Repo, c.Rep)
+			g31PackageOrder(c.Repo, c.Rep)
 			g14ReservedProvenance(c)
 			g14VisitContinues(c.Repo, c.Rep)
 			g16Load(c)
@@ -138,6 +149,7 @@ func init() {
 			// the derived file's path comes from the first listed user file: a package none of whose files is listed gets a path
 			// relative to the working directory (G10: every user file is listed, print-or-delete goes to (*pkg).Filename())
 			runG10(c.Repo, c.Rep)
+			g4PrintWrites(c.Repo, c.Rep)
 			g26DirectoryKnown(c.Repo, c.Rep)
 			g16PosOrder(c.Repo, c.Rep)
 			g14ReservedProvenance(c)
@@ -151,6 +163,7 @@ func init() {
 		run: func(c *Ctx) {
 			runG1(c.Repo, c.Rep)
 			g23UnresolvedReported(c.Repo, c.Rep)
+			g23BreakOnlyWithoutProgress(c.Repo, c.Rep)
 			c.Rep.floor("G1", 350)
 			g12HasUndefined(c)
 			g14NilPkg(c.Repo, c.Rep)
@@ -189,6 +202,7 @@ func init() {
 			g14ReservedBeforeNaming(c)
 			g17ArgTypesFromDeclaration(c)
 			g16Eq(c)
+			g29EqDefaults(c.Repo, c.Rep)
 			g21ReserveEveryCalledName(c.Repo, c.Rep)
 			// "fails exactly when …": a detected conflict or duplicate must reach the exit status
 			runG1(c.Repo, c.Rep)
@@ -205,6 +219,9 @@ func init() {
 	checks["C12"] = &checkDef{
 		run: func(c *Ctx) {
 			runG8(c.Repo, c.Rep)
+			g8PluginOrderFixed(c.Repo, c.Rep)
+			// helper names are minted from the plugin's current prefix and the name returned is the one that was tested to be free
+			g7NewName(c.Repo, c.Rep)
 			c.Rep.floor("G8", 150)
 			runR_C12(c)
 		},
